@@ -313,7 +313,12 @@ class HBatch(_batching.BatchBase):
         self.flush_calls = 0
         self.sched_flushes = 0
         self._h = rt.batch_hash(kind, self.serial)
+        self.announced = False
+        self.on_computed.subscribe(self._announce)
         rt.batches.append(self)
+
+    def _announce(self, _):
+        self.announced = True
 
     def __hash__(self):
         return self._h
@@ -399,7 +404,9 @@ class HItem(_batching.BatchItemBase):
 
     def _oc(self, _):
         self.rt.item_computed[self.sid] += 1
-        self.computed_in_flush = self.rt.in_flush
+        # completed "by that flush": after its batch's flush body started and before the batch's
+        # own completion was announced (unset items are completed by BatchBase._computed)
+        self.completed_by_flush = (self.sid in self.rt.item_flush) and not self.batch.announced
 
     def is_computed(self):
         self.rt.tick()
@@ -1248,8 +1255,8 @@ def judge(rt, td, real, props, conv, sv_init, expect_flushes):
             if rt.item_computed[sid] > 1:
                 return rec.fail("item %s completed %d times" % (sid, rt.item_computed[sid]))
             if _batching.BatchItemBase.is_computed(it) and sid in rt.item_flush:
-                if getattr(it, "computed_in_flush", 1) < 1:
-                    return rec.fail("item %s was completed outside its batch's flush" % sid)
+                if not getattr(it, "completed_by_flush", True):
+                    return rec.fail("item %s was not completed by its batch's flush" % sid)
         if not _paired(rt.sched_events):
             return rec.fail("before/after flush events are not paired: %r" % (
                 [(k, repr(b)) for k, b in rt.sched_events],))
